@@ -16,12 +16,14 @@ import (
 	"fmt"
 	"os"
 	osexec "os/exec"
+	"os/signal"
 	"path/filepath"
 	"regexp"
 	"runtime"
 	"strconv"
 	"strings"
 	"sync"
+	"syscall"
 
 	"github.com/lianxiangcloud/linkchain/types"
 
@@ -43,8 +45,23 @@ func ChildMain(args []string) {
 		os.Exit(3)
 	}
 	path, op := args[0], args[1]
-	pv := types.LoadFilePV(path)
 	q := parseReq(hx.Tokens(op))
+	if q.fail != "" {
+		limit, ok := failLimit(path, q)
+		if ok {
+			// writes to regular files beyond `limit` bytes fail with EFBIG (SIGXFSZ ignored): a full disk / quota
+			signal.Ignore(syscall.SIGXFSZ)
+			var rl syscall.Rlimit
+			if err := syscall.Getrlimit(syscall.RLIMIT_FSIZE, &rl); err != nil {
+				os.Exit(4)
+			}
+			rl.Cur = limit
+			if err := syscall.Setrlimit(syscall.RLIMIT_FSIZE, &rl); err != nil {
+				os.Exit(4)
+			}
+		}
+	}
+	pv := types.LoadFilePV(path)
 	if f, err := os.Open(markBegin); err == nil {
 		f.Close()
 	}
@@ -63,6 +80,47 @@ func ChildMain(args []string) {
 		f.Close()
 	}
 	os.Exit(0)
+}
+
+// failLimit: the file-size limit of a `fail=` op.  "fsize:<n>" = n bytes; "short:<k>" = the length of the record this
+// call would write minus k (learned by a dry run of the same call on a copy of the key file; no record written = no limit).
+func failLimit(path string, q *req) (uint64, bool) {
+	parts := strings.Split(q.fail, ":")
+	if len(parts) != 2 {
+		os.Exit(5)
+	}
+	n, err := strconv.ParseUint(parts[1], 10, 63)
+	if err != nil {
+		os.Exit(5)
+	}
+	switch parts[0] {
+	case "fsize":
+		return n, true
+	case "short":
+		b, err := os.ReadFile(path)
+		if err != nil {
+			os.Exit(5)
+		}
+		dry := path + ".dry"
+		if err := os.WriteFile(dry, b, 0o600); err != nil {
+			os.Exit(5)
+		}
+		defer os.Remove(dry)
+		before, _ := os.Stat(dry)
+		pv := types.LoadFilePV(dry)
+		doSign(pv, q)
+		after, err := os.Stat(dry)
+		if err != nil || os.SameFile(before, after) {
+			return 0, false // the call writes no record (refusal, replay, panic before the save)
+		}
+		l := uint64(after.Size())
+		if n >= l {
+			return 0, true
+		}
+		return l - n, true
+	}
+	os.Exit(5)
+	return 0, false
 }
 
 type calibration struct {
@@ -90,15 +148,21 @@ func self() string {
 
 func calibrate() calibration {
 	calOnce.Do(func() {
-		cal = calibrateOnce()
-		if cal.err == nil {
-			// the start-up count must be stable: measure twice
-			c2 := calibrateOnce()
-			if c2.err != nil {
-				cal.err = c2.err
-			} else if fmt.Sprint(c2.base) != fmt.Sprint(cal.base) || strings.Join(c2.opSeq, ",") != strings.Join(cal.opSeq, ",") {
-				cal.err = fmt.Errorf("calibration unstable: %v %v vs %v %v", cal.base, cal.opSeq, c2.base, c2.opSeq)
+		// the start-up count must be stable: measure twice; a loaded machine gets three attempts
+		for attempt := 0; attempt < 3; attempt++ {
+			cal = calibrateOnce()
+			if cal.err == nil {
+				c2 := calibrateOnce()
+				if c2.err != nil {
+					cal.err = c2.err
+				} else if fmt.Sprint(c2.base) != fmt.Sprint(cal.base) || strings.Join(c2.opSeq, ",") != strings.Join(cal.opSeq, ",") {
+					cal.err = fmt.Errorf("calibration unstable: %v %v vs %v %v", cal.base, cal.opSeq, c2.base, c2.opSeq)
+				}
 			}
+			if cal.err == nil {
+				return
+			}
+			fmt.Fprintln(os.Stderr, "c04: calibration attempt failed:", cal.err)
 		}
 	})
 	return cal
@@ -206,6 +270,17 @@ func killPoints() []string {
 
 // runChild executes one signing op in a child process that is killed at the entry of the n-th <sys> call of the op.
 func runChild(path, op, kill string) (signResult, bool, error) {
+	if kill == "" {
+		// write-error injection only: the child limits its own file size, no tracer needed
+		cmd := osexec.Command(self(), "C04-child", path, op)
+		var out, errb bytes.Buffer
+		cmd.Stdout = &out
+		cmd.Stderr = &errb
+		if err := cmd.Run(); err != nil {
+			return signResult{}, false, fmt.Errorf("child failed: %v %q %q", err, out.String(), errb.String())
+		}
+		return parseChild(out.String())
+	}
 	c := calibrate()
 	if c.err != nil {
 		return signResult{}, false, c.err
@@ -244,6 +319,13 @@ func runChild(path, op, kill string) (signResult, bool, error) {
 			return signResult{}, false, fmt.Errorf("child failed rc=%d: %q %q", ee.ExitCode(), s, errb.String())
 		}
 		return signResult{}, true, nil // killed: nothing was handed to the caller
+	}
+	return parseChild(s)
+}
+
+func parseChild(s string) (signResult, bool, error) {
+	if !strings.HasPrefix(s, "R ") || !strings.HasSuffix(s, "\n") {
+		return signResult{}, false, fmt.Errorf("child answered %q", s)
 	}
 	f := strings.Fields(strings.TrimSpace(s))
 	switch f[1] {
